@@ -128,7 +128,7 @@ func printResult(res *interp.Result) {
 	}
 	sort.Strings(fk)
 	for i, k := range fk {
-		if i >= 40 {
+		if i >= 40 && os.Getenv("VERIF_ALLGROUPS") == "" {
 			fmt.Printf("  ... %d more failure groups\n", len(fk)-i)
 			break
 		}
